@@ -80,6 +80,10 @@
  *  functions and the encoder walk nested elements recursively) */
 #define WBXML_MAX_NESTING_DEPTH 1000
 
+/** Maximum nesting depth of embedded WBXML documents (a SyncML message embedding a DevInf or
+ *  DM DDF document): an embedded document of an embedded document is kept as plain data */
+#define WBXML_MAX_EMBEDDED_DEPTH 1
+
 /* WBXML Lib string functions */
 #define WBXML_STRLEN(a) strlen((const WB_TINY*)a)
 #define WBXML_STRCMP(a,b) strcmp((const WB_TINY*)a,(const WB_TINY*)b)
